@@ -1,0 +1,167 @@
+//! Verification hooks (feature `verif-hooks`): additive helpers for the external
+//! model-checking harness. Not compiled unless the feature is enabled.
+
+use crate::MdkMemoryStorage;
+
+impl MdkMemoryStorage {
+    /// Copy every per-group rollback snapshot of `other` into `self` (replacing what is there).
+    /// Together with `create_snapshot` / `restore_snapshot` this forks a complete store.
+    pub fn verif_copy_group_snapshots_from(&self, other: &MdkMemoryStorage) {
+        let src = other.group_snapshots.read();
+        let mut dst = self.group_snapshots.write();
+        dst.clear();
+        for (k, v) in src.iter() {
+            dst.insert(k.clone(), v.clone());
+        }
+    }
+
+    /// Overwrite `created_at` of a stored rollback snapshot (TTL boundary checks).
+    pub fn verif_set_snapshot_created_at(
+        &self,
+        group_id: &mdk_storage_traits::GroupId,
+        name: &str,
+        created_at: u64,
+    ) -> bool {
+        let mut snaps = self.group_snapshots.write();
+        match snaps.get_mut(&(group_id.clone(), name.to_string())) {
+            Some(s) => {
+                s.created_at = created_at;
+                true
+            }
+            None => false,
+        }
+    }
+
+    /// Deterministic dump of every map of the store (sorted), for state fingerprints.
+    /// Each line is `table|key|value` with byte strings hex-encoded by `{:02x?}`-free formatting.
+    pub fn verif_dump(&self) -> Vec<String> {
+        fn hx(b: &[u8]) -> String {
+            let mut s = String::with_capacity(b.len() * 2);
+            for x in b {
+                s.push_str(&format!("{:02x}", x));
+            }
+            s
+        }
+        let inner = self.inner.read();
+        let mut out: Vec<String> = Vec::new();
+        for ((gid, ty), v) in inner.mls_group_data.data.iter() {
+            out.push(format!("mls_group_data|{}:{:?}|{}", hx(gid), ty, hx(v)));
+        }
+        for (gid, v) in inner.mls_own_leaf_nodes.data.iter() {
+            let joined: Vec<String> = v.iter().map(|x| hx(x)).collect();
+            out.push(format!(
+                "mls_own_leaf_nodes|{}|{}",
+                hx(gid),
+                joined.join(",")
+            ));
+        }
+        for ((gid, r), v) in inner.mls_proposals.data.iter() {
+            out.push(format!("mls_proposals|{}:{}|{}", hx(gid), hx(r), hx(v)));
+        }
+        for (k, v) in inner.mls_key_packages.data.iter() {
+            out.push(format!("mls_key_packages|{}|{}", hx(k), hx(v)));
+        }
+        for (k, v) in inner.mls_psks.data.iter() {
+            out.push(format!("mls_psks|{}|{}", hx(k), hx(v)));
+        }
+        for (k, v) in inner.mls_signature_keys.data.iter() {
+            out.push(format!("mls_signature_keys|{}|{}", hx(k), hx(v)));
+        }
+        for (k, v) in inner.mls_encryption_keys.data.iter() {
+            out.push(format!("mls_encryption_keys|{}|{}", hx(k), hx(v)));
+        }
+        for ((gid, ep, leaf), v) in inner.mls_epoch_key_pairs.data.iter() {
+            out.push(format!(
+                "mls_epoch_key_pairs|{}:{}:{}|{}",
+                hx(gid),
+                hx(ep),
+                leaf,
+                hx(v)
+            ));
+        }
+        for (k, v) in inner.groups_cache.iter() {
+            out.push(format!(
+                "groups|{}|{}",
+                hx(k.as_slice()),
+                serde_json::to_string(v).unwrap_or_default()
+            ));
+        }
+        for (k, v) in inner.groups_by_nostr_id_cache.iter() {
+            out.push(format!(
+                "groups_by_nostr_id|{}|{}",
+                hx(k),
+                hx(v.mls_group_id.as_slice())
+            ));
+        }
+        for (k, v) in inner.group_relays_cache.iter() {
+            let urls: Vec<String> = v.iter().map(|r| r.relay_url.to_string()).collect();
+            out.push(format!(
+                "group_relays|{}|{}",
+                hx(k.as_slice()),
+                urls.join(",")
+            ));
+        }
+        for (k, v) in inner.welcomes_cache.iter() {
+            out.push(format!(
+                "welcomes|{}|{}",
+                k.to_hex(),
+                serde_json::to_string(v).unwrap_or_default()
+            ));
+        }
+        for (k, v) in inner.processed_welcomes_cache.iter() {
+            out.push(format!(
+                "processed_welcomes|{}|{}",
+                k.to_hex(),
+                serde_json::to_string(v).unwrap_or_default()
+            ));
+        }
+        for (g, m) in inner.messages_by_group_cache.iter() {
+            for (k, v) in m.iter() {
+                out.push(format!(
+                    "messages|{}:{}|{}",
+                    hx(g.as_slice()),
+                    k.to_hex(),
+                    serde_json::to_string(v).unwrap_or_default()
+                ));
+            }
+        }
+        for (k, v) in inner.messages_cache.iter() {
+            out.push(format!(
+                "messages_cache|{}|{}",
+                k.to_hex(),
+                serde_json::to_string(v).unwrap_or_default()
+            ));
+        }
+        for (k, v) in inner.processed_messages_cache.iter() {
+            out.push(format!(
+                "processed_messages|{}|{}",
+                k.to_hex(),
+                serde_json::to_string(v).unwrap_or_default()
+            ));
+        }
+        for ((g, e), v) in inner.group_exporter_secrets_cache.iter() {
+            out.push(format!(
+                "group_exporter_secrets|{}:{}|{}",
+                hx(g.as_slice()),
+                e,
+                hx(v.secret.as_ref())
+            ));
+        }
+        drop(inner);
+        let snaps = self.group_snapshots.read();
+        for ((g, name), s) in snaps.iter() {
+            out.push(format!(
+                "group_snapshots|{}:{}|{}:{}:{}:{}:{}",
+                hx(g.as_slice()),
+                name,
+                s.created_at,
+                s.mls_group_data.len(),
+                s.mls_proposals.len(),
+                s.mls_epoch_key_pairs.len(),
+                s.group.as_ref().map(|g| g.epoch).unwrap_or(u64::MAX)
+            ));
+        }
+        out.sort();
+        out
+    }
+}
